@@ -193,6 +193,10 @@ class Signed(BitVector):
         if isinstance(rhs, (int, Integer)):
             rhs = Integer.decay(rhs)
             target_width = self.width
+        elif isinstance(rhs, Signed) and rhs.width < self.width:
+            # negate at the width of the result, the two's complement
+            # of a narrower operand would wrap at its own width
+            rhs = rhs.resize(self.width)
 
         rhs = -rhs
         return self.add(rhs, target_width)
